@@ -140,13 +140,24 @@ def generate_family(limit=700):
                         break
                     n += 1
                     name = "G%d" % n
+                    noise = n % 3 == 0     # every third declaration carries unrelated attributes around the helper attributes
                     out.append("#[derive(BinaryCodec)]")
+                    if noise:
+                        out.append("/// generated declaration %d" % n)
+                        out.append("#[allow(dead_code)]")
                     if hist:
                         out.append("#[evolution(%s)]" % ", ".join(hist))
+                    if noise:
+                        out.append("#[allow(clippy::all)]")
                     out.append("pub struct %s {" % name)
                     for f in fields:
                         if f["transient"]:
+                            if noise:
+                                out.append("    /// not on the wire")
+                                out.append("    #[allow(dead_code)]")
                             out.append("    #[transient(%s)]" % f["default"])
+                            if noise:
+                                out.append("    #[allow(unused)]")
                         out.append("    pub %s: %s," % (f["name"], f["ty"]))
                     out.append("}")
                     out.append("")
@@ -165,13 +176,20 @@ def generate_family(limit=700):
                         continue
                     en += 1
                     name = "E%d" % en
+                    noise = en % 3 == 0
                     out.append("#[derive(BinaryCodec)]")
+                    if noise:
+                        out.append("/// generated enum %d" % en)
+                        out.append("#[allow(dead_code)]")
                     if sorted_:
                         out.append("#[sorted_constructors]")
                     out.append("pub enum %s {" % name)
                     names = ["Zed", "Alpha", "Mike", "Bravo"]
                     for i, sh in enumerate(combo):
                         if i == tv:
+                            if noise:
+                                out.append("    /// never serialized")
+                                out.append("    #[allow(dead_code)]")
                             out.append("    #[transient]")
                         vn = names[i]
                         s = shapes[sh]
